@@ -287,6 +287,8 @@ pub struct Device {
     /// caller-owned CTAP1 response buffers, one per capacity (C09)
     pub u2f: std::collections::BTreeMap<usize, Box<dyn crate::c09::U2fBuf>>,
     pub last_outcome: String,
+    /// C04: outcome of the first delivery of each distinct message in this session (keyed by content hash)
+    pub seen: std::collections::BTreeMap<(u64, usize), String>,
 }
 
 impl Device {
@@ -303,6 +305,7 @@ impl Device {
             mocks: crate::c10::Mocks::new(),
             u2f: Default::default(),
             last_outcome: String::new(),
+            seen: Default::default(),
         }
     }
 
@@ -344,6 +347,22 @@ pub fn exec(dev: &mut Device, step: &Step, prop: Prop, log: &mut Log) -> Option<
                     }
                 };
             }
+            if let Some(n) = class.strip_prefix("soak:") {
+                // the same message delivered n times to a device that is never restarted: every answer equals the first
+                let n: u64 = n.parse().unwrap_or(1);
+                return match crate::c04::soak(delivered, n) {
+                    Ok(first) => {
+                        log.event(&format!("soak len={} n={} -> {}", delivered.len(), n, first));
+                        dev.last_outcome = format!("soak-ok:{}", n);
+                        None
+                    }
+                    Err((k, what, panicked)) => {
+                        log.event(&format!("soak len={} n={} failed at delivery {}", delivered.len(), n, k));
+                        dev.last_outcome = format!("soak-fail:{}", k);
+                        finding(if panicked { "panic" } else { "history_dependent" }, format!("delivery {} of {} of the same {}-byte message: {} [{}]", k, n, delivered.len(), what, desc))
+                    }
+                };
+            }
             dev.receive(delivered);
             let pad = 1 + (dev.exchanges as usize % 7);
             let tail = (dev.exchanges as u8).wrapping_mul(37) ^ 0x5A;
@@ -364,6 +383,20 @@ pub fn exec(dev: &mut Device, step: &Step, prop: Prop, log: &mut Log) -> Option<
             if prop == Prop::C04 {
                 if let Some(df) = diff {
                     return finding("nondeterministic", format!("{} [{}]", df, desc));
+                }
+                // the same bytes always give the same result, whatever was delivered in between
+                let key = (crate::prng::fnv(delivered), delivered.len());
+                match dev.seen.get(&key) {
+                    Some(first) if *first != d.short() => {
+                        return finding(
+                            "history_dependent",
+                            format!("the same {}-byte message was answered {} earlier in this session and {} now [{}]", delivered.len(), first, d.short(), desc),
+                        );
+                    }
+                    Some(_) => {}
+                    None => {
+                        dev.seen.insert(key, d.short());
+                    }
                 }
                 if class == "recovery" {
                     // once faults stop the next request is served identically: compare with a device that saw no earlier exchange
